@@ -26,6 +26,14 @@ theorem seq_one_live {α} (kind : SeqKind) (items : Nat → Item) (es : List (Ev
     have : k = (final (seqM (α := α) kind items) seqInit es).s.idx - 1 := by simpa [h1] using hk
     omega
 
+/-- `ops.catch(handler)` (catch_handler: no scheduler hop, the handler's result replaces the source inside the error
+handler): at most one of the two subscriptions is live in every reachable state — the source before the switch, the
+handler's result after it. -/
+theorem seq_one_live_catch_handler {α} (res : Except Err Unit) (es : List (Ev α)) :
+    let st := final (chM (α := α) res) chInit es
+    st.p.live = [] ∨ (st.p.live = [0] ∧ st.s.switched = false) ∨ (st.p.live = [1] ∧ st.s.switched = true) :=
+  (ch_final_inv res es _ ch_init_inv).one
+
 /-- **seq_next_after_terminal.** From any reachable state: (a) a subscribe effect is produced only by the scheduled action
 (`tick`), while an action is pending and nothing is live, and it subscribes the next source of the iterator; (b) an
 action becomes pending only in the step in which the live source delivers a terminal of the kind the operator continues
